@@ -18,7 +18,7 @@ from lib import gz, glist, gbool, gopt
 
 THEOREMS = ['C14_trace_ok', 'C14_trace_ok_any_fire', 'C14_serverbase_unserialisable_refuted',
             'C14_serverbase_unserialisable_escapes', 'C14_listeners_in_order', 'C14_created_first_closed_last',
-            'C14_registration_order', 'C14_registered_twice_runs_once', 'C14_inherited', 'C14_inherited_member',
+            'C14_registration_order', 'C14_registered_twice_runs_once', 'C14_inherited', 'C14_inherited_member', 'C14_class_handlers',
             'C14_world_handlers_nodup']
 
 IMPORTS = 'From SpyneV Require Import Base.Prelude C14.Model C14.Drivers C14.Corr.'
